@@ -78,6 +78,8 @@ InsertLinesAt(p, f, at, ins, anch) ==
 \*  position there may denote the end of the buffer, which moves to the new end, or the end of the last item, which stays)
 MovedOK(pr) == \/ ShiftPos(<<>>, edit.at, edit.dl, edit.db, pr[1], pr[2], pr[3]) = <<pr[4], pr[5], pr[6]>>
                \/ edit.app /\ <<pr[1], pr[2], pr[3]>> = edit.oeof /\ <<pr[4], pr[5], pr[6]>> = edit.neof
+               \* ... or just behind the line terminator that the appended text begins with (the end of the last item's line)
+               \/ edit.app /\ <<pr[1], pr[2], pr[3]>> = edit.oeof /\ <<pr[4], pr[5], pr[6]>> = <<edit.oeof[1] + 1, edit.oeof[2] + 1, 1>>
                \* likewise where the parser says the root body of the file begins (the first token that is not a comment,
                \* possibly the line end after a block comment): logged before and after by the harness
                \/ pr \in edit.anch
